@@ -81,6 +81,13 @@ func (v *fmtVal) toJSON() map[string]any {
 		return map[string]any{"t": v.T, "elems": es}
 	case "map":
 		return map[string]any{"t": "map", "k": v.K.toJSON(), "v": v.Val.toJSON()}
+	case "mmap":
+		ks, vs := []any{}, []any{}
+		for i := range v.Elems {
+			ks = append(ks, v.Elems[i].toJSON())
+			vs = append(vs, v.Vals[i].toJSON())
+		}
+		return map[string]any{"t": "mmap", "ks": ks, "vs": vs}
 	case "emptymap":
 		return map[string]any{"t": "emptymap"}
 	case "struct":
@@ -209,6 +216,32 @@ func (g *fmtGen) ofType(ty string, depth int) *fmtVal {
 		kt, vt := ty[4:end], ty[end+1:]
 		if g.r.Intn(5) == 0 {
 			return &fmtVal{T: "emptymap", goTy: ty, lit: ty + "{}", native: true}
+		}
+		if kt != "float64" && g.r.Intn(2) == 0 {
+			// several entries, written in any order: they print in ascending key order
+			want := 2 + g.r.Intn(3)
+			if kt == "bool" {
+				want = 2
+			}
+			mv := &fmtVal{T: "mmap", goTy: ty, native: true}
+			seen := map[string]bool{}
+			var lits []string
+			for tries := 0; len(mv.Elems) < want && tries < 40; tries++ {
+				k := g.ofType(kt, 0)
+				if seen[k.lit] {
+					continue
+				}
+				seen[k.lit] = true
+				e := g.ofType(vt, depth-1)
+				mv.Elems = append(mv.Elems, k)
+				mv.Vals = append(mv.Vals, e)
+				lits = append(lits, k.lit+": "+e.lit)
+				mv.native = mv.native && k.native && e.native
+			}
+			if len(mv.Elems) >= 2 {
+				mv.lit = ty + "{" + strings.Join(lits, ", ") + "}"
+				return mv
+			}
 		}
 		k, e := g.ofType(kt, 0), g.ofType(vt, depth-1)
 		return &fmtVal{T: "map", K: k, Val: e, goTy: ty, lit: ty + "{" + k.lit + ": " + e.lit + "}", native: k.native && e.native}
@@ -508,6 +541,12 @@ func c14GoLit(v *fmtVal) string {
 		return ty + "{" + strings.Join(ls, ", ") + "}"
 	case "map":
 		return ty + "{" + c14GoLit(v.K) + ": " + c14GoLit(v.Val) + "}"
+	case "mmap":
+		var ls []string
+		for i := range v.Elems {
+			ls = append(ls, c14GoLit(v.Elems[i])+": "+c14GoLit(v.Vals[i]))
+		}
+		return ty + "{" + strings.Join(ls, ", ") + "}"
 	case "emptymap":
 		return ty + "{}"
 	}
@@ -671,7 +710,7 @@ func c14UntypedOK(v *fmtVal) bool {
 
 // c14FreshKey: for a top-level map value, the source text of a key the map does not hold ("" for other values)
 func c14FreshKey(v *fmtVal) string {
-	if !strings.HasPrefix(v.goTy, "map[") {
+	if !strings.HasPrefix(v.goTy, "map[") || v.T == "mmap" {
 		return ""
 	}
 	kt := v.goTy[4:strings.Index(v.goTy, "]")]
